@@ -30,7 +30,7 @@ MANIFEST = dict(
          "and keeps it unaliased (the O(n+k) clause), a shared list is copied exactly once and is unaliased afterwards, drop_lhs makes "
          "the operator's argument unique. The machine is tied to /repo on every run by comparing its heap with the implementation's "
          "real Rc graph (addresses, strong counts) after every statement of generated histories; the O(n+k) clause is measured "
-         "directly with a counting global allocator on 85 workloads (mutations guarded by a test of the collection itself - if / and / or / for-guard, defect condition-value-kept-alive fixed in /repo e624b10 -, dictionary-merging op-assigns with growing values, loops whose condition is the mutated collection, every payload kind under op-assign at top level and through list slot / dict key / struct field, nested pop/remove/consume, op-assign with a shared right operand) at 6 size points, unaliased and once-aliased.",
+         "directly with a counting global allocator on 100 workloads (mutation inside a user-defined function used as op-assign operator / called with consume x, mutations guarded by a test of the collection itself - if / and / or / for-guard, defect condition-value-kept-alive fixed in /repo e624b10 -, dictionary-merging op-assigns with growing values, loops whose condition is the mutated collection, every payload kind under op-assign at top level and through list slot / dict key / struct field, nested pop/remove/consume, op-assign with a shared right operand) at 6 size points, unaliased and once-aliased.",
     note="The unaliased/copy-once/drop_lhs theorems are proved for the FLAT fragment only (list of scalars, paths of depth <= 1); nested "
          "rows, dicts, struct fields and the operators' own make_mut at depth are covered by the graph comparison and the allocation "
          "measurement, not by theorems (notes/C02.md). Trusted: Coq kernel; hand-written machine; extraction + OCaml runner; Rust "
@@ -303,6 +303,24 @@ WORKLOADS = [
     ("x[0] and nested append=", "list", lambda n: [f"x := [{lit_list(n)}, 0]"], lambda n, k: f"for (i <- 0 til {k}) (x[0] and (x[0] append= i))"),
     ("for guard append=", "list", lambda n: [f"x := {lit_list(n)}"], lambda n, k: f"for (i <- 1 to {k}; if x) (x append= i)"),
     ("for guard vector append=", "vector", lambda n: [f"x := vector({lit_list(n)})"], lambda n, k: f"for (i <- 1 to {k}; if x) (x append= i)"),
+    # the mutation happens inside a USER-DEFINED function that received the unshared collection as an argument (a consuming
+    # modifier used as the operator of an op-assign, or called with `consume x`): the call machinery must not keep a second
+    # reference to the arguments while the body runs
+    ("closure operator append=", "list", lambda n: [f"x := {lit_list(n)}", "f := \\acc, v -> (acc append= v; acc)"], lambda n, k: f"for (i <- 0 til {k}) (x f= i)"),
+    ("closure operator index +=", "list", lambda n: [f"x := {lit_list(n)}", "g := \\row, d -> (row[0] += d; row)"], lambda n, k: f"for (i <- 0 til {k}) (x g= 1)"),
+    ("closure operator index-assign", "list", lambda n: [f"x := {lit_list(n)}", f"g := \\row, i -> (row[i % {n}] = i; row)"], lambda n, k: f"for (i <- 0 til {k}) (x g= i)"),
+    ("closure operator on list slot", "list", lambda n: [f"x := [{lit_list(n)}, {lit_list(n)} ++ []]", "f := \\acc, v -> (acc append= v; acc)"], lambda n, k: f"for (i <- 0 til {k}) (x[i % 2] f= i)"),
+    ("closure operator on dict bucket", "dict", lambda n: [f"x := {{\"a\": {lit_list(n)}}}", "f := \\acc, v -> (acc append= v; acc)"], lambda n, k: f"for (i <- 0 til {k}) (x[\"a\"] f= i)"),
+    ("closure operator on struct field", "P", lambda n: ["struct P (pa, pb)", f"x := P({lit_list(n)}, 0)", "f := \\acc, v -> (acc append= v; acc)"], lambda n, k: f"for (i <- 0 til {k}) (x[pa] f= i)"),
+    ("closure operator dict |.=", "dict", lambda n: [f"x := {{}}", f"for (i <- 0 til {n}) (x |.= i)", "f := \\d, k -> (d |.= k; d)"], lambda n, k: f"for (i <- 0 til {k}) (x f= ({n} + i))"),
+    ("closure operator dict index-assign", "dict", lambda n: [f"x := {{}}", f"for (i <- 0 til {n}) (x[i] = i)", f"f := \\d, k -> (d[k % {n}] = k; d)"], lambda n, k: f"for (i <- 0 til {k}) (x f= i)"),
+    ("closure operator vector append=", "vector", lambda n: [f"x := vector({lit_list(n)})", "f := \\acc, v -> (acc append= v; acc)"], lambda n, k: f"for (i <- 0 til {k}) (x f= i)"),
+    ("closure operator vector index +=", "vector", lambda n: [f"x := vector({lit_list(n)})", f"g := \\row, i -> (row[i % {n}] += 1; row)"], lambda n, k: f"for (i <- 0 til {k}) (x g= i)"),
+    ("closure operator bytes append=", "bytes", lambda n: [f"x := bytes({lit_list(n)})", "f := \\acc, v -> (acc append= v; acc)"], lambda n, k: f"for (i <- 0 til {k}) (x f= i % 200)"),
+    ("closure operator pop", "list", lambda n: [f"x := {lit_list(n)}", "f := \\acc, v -> (acc append= v; pop acc; acc)"], lambda n, k: f"for (i <- 0 til {k}) (x f= i)"),
+    ("closure called with consume x", "list", lambda n: [f"x := {lit_list(n)}", "f := \\acc, v -> (acc append= v; acc)"], lambda n, k: f"for (i <- 0 til {k}) (x = f(consume x, i))"),
+    ("closure called with consume x[i]", "list", lambda n: [f"x := [{lit_list(n)}, 0]", "f := \\acc, v -> (acc append= v; acc)"], lambda n, k: f"for (i <- 0 til {k}) (x[0] = f(consume x[0], i))"),
+    ("one-parameter closure called with consume x", "dict", lambda n: [f"x := {{}}", f"for (i <- 0 til {n}) (x[i] = i)", f"f := \\d -> (d[0] += 1; d)"], lambda n, k: f"for (i <- 0 til {k}) (x = f(consume x))"),
     ("string index-assign", "str", lambda n: [f"x := \"a\" $* {n}"], lambda n, k: f"for (i <- 0 til {k}) (x[i % {n}] = \"b\")"),
 ]
 
